@@ -464,7 +464,13 @@ def drive(pid, mod, tier, seed, replay=None, workers=None, limit=None):
                         2: 'inconclusive'}[rc],
         }
         for k, v in getattr(mod, 'EXTRA_COVERAGE', {}).items():
-            coverage[k] = v(tier) if callable(v) else v
+            if callable(v):
+                try:
+                    coverage[k] = v(tier, dict(agg_events))
+                except TypeError:
+                    coverage[k] = v(tier)
+            else:
+                coverage[k] = v
         ev = {
             'property_id': pid, 'tier': tier, 'seed': seed,
             'level': mod.LEVEL, 'coverage': coverage,
